@@ -110,14 +110,17 @@ def fill_scalars(sh, pool=SCALARS, start=0):
     """replace the leaf markers by distinct scalar literals (cycling through the pool)"""
     ctr = [start]
 
-    def go(s):
+    def go(s, in_list=False):
         if s[0] == 's':
             v = pool[ctr[0] % len(pool)]
             ctr[0] += 1
+            if v == '' and in_list:      # a flow sequence cannot hold an empty entry: take the next literal
+                v = pool[ctr[0] % len(pool)]
+                ctr[0] += 1
             return ('s', v)
         if s[0] == 'm':
             return ('m', tuple((k, go(c)) for k, c in s[1]))
-        return ('l', tuple(go(c) for c in s[1]))
+        return ('l', tuple(go(c, True) for c in s[1]))
     return go(sh)
 
 
